@@ -65,6 +65,14 @@ def opState (a : List String) : String :=
     | some pti, some au, some tb, some ctx =>
       if tb < 13 ∧ contextSize? pti = some ctx.length then hx (encodeState au tb ctx) else "bad-op"
     | _, _, _, _ => "bad-op"
+  | ["encodeg", kind, au, tb, ctx] =>
+    -- the encoder is generic in the context type: for any plain-old-data context (whatever its alignment) the encoding
+    -- is authority ‖ type byte ‖ context bytes, with no padding
+    match addr au, tb.toNat?, ofHex ctx with
+    | some au, some tb, some ctx =>
+      let sz := match kind with | "u64" => 8 | "u32x3" => 12 | "u16x5" => 10 | "u8x7" => 7 | "u128" => 16 | _ => 0
+      if tb < 13 ∧ sz ≠ 0 ∧ ctx.length = sz then hx (encodeState au tb ctx) else "bad-op"
+    | _, _, _ => "bad-op"
   | ["decode", pti, h] =>
     match pti.toNat?, ofHex h with
     | some pti, some b =>
